@@ -1,5 +1,6 @@
-import os
 """C19 — container headers vs abstract models (DESIGN.md section 3, C19)."""
+import os
+
 from vlib import Ob, run_all
 
 BITMAP_OPS = {1: "set_bit_p", 2: "clear_bit_p", 3: "set_bit_range_p", 4: "clear_bit_range_p", 5: "copy",
